@@ -41,6 +41,11 @@ type Contract struct {
 	Ensures  []*Clause
 	Modifies []*Clause
 	PanicsIf *Clause
+	// Atomic: a call of this function is one atomic step on shared state.
+	// Guarantees: two-state conditions the function keeps across each of the
+	// atomic steps it performs (rely/guarantee style interference contract).
+	Atomic     bool
+	Guarantees []*Clause
 	// MayPanic: function may panic under its precondition without it being an obligation
 	// (used for functions whose panics are their documented refusal).
 	EnsuresPanic bool
@@ -124,6 +129,7 @@ func NewContractSet() *ContractSet {
 var clauseKw = map[string]bool{"requires": true, "ensures": true, "ensures!": true, "modifies": true, "panics_if": true,
 	"loop": true, "inline": true, "assumed": true, "mode": true, "arith": true, "func": true, "spec": true, "type": true,
 	"lemma": true, "lemma!": true, "pragma": true, "property": true, "package": true, "ghost": true, "replay": true,
+	"atomic": true, "guarantee": true,
 	"ensures_panic": true, "nonil": true, "pure": true, "witness": true, "end": true, "uses": true, "nosafety": true, "trustframe": true, "maypanic": true, "funczero": true, "purecalls": true}
 
 var nameRe = regexp.MustCompile(`^([A-Za-z_][A-Za-z0-9_.]*):\s+`)
@@ -333,6 +339,27 @@ func (cs *ContractSet) LoadFile(path, pkgPath string) {
 			if cur != nil {
 				cur.EnsuresPanic = true
 			}
+		case "atomic":
+			// the call is one atomic step on shared state (sync/atomic operations)
+			if cur != nil {
+				cur.Atomic = true
+			}
+		case "guarantee":
+			// two-state condition that must hold across every atomic step the
+			// function performs (old(e): value before the step)
+			if cur == nil {
+				bad(fmt.Errorf("guarantee outside func"))
+				continue
+			}
+			cl, err := parseClause(ll.rest, ll.line, true)
+			if err != nil {
+				bad(err)
+				continue
+			}
+			if cl.Name == "" {
+				cl.Name = strconv.Itoa(len(cur.Guarantees))
+			}
+			cur.Guarantees = append(cur.Guarantees, cl)
 		case "loop":
 			if cur == nil {
 				bad(fmt.Errorf("loop outside func"))
